@@ -40,6 +40,16 @@ class Verifier(Calls):
         return outs
 
     def exec_stmt(self, stmt, st):
+        if isinstance(stmt, ast.Return) and st.frames:
+            # ghost code attached to a return statement runs just before it
+            c0 = REG.fns.get(st.frame.fnkey)
+            if c0 is not None and c0.ghost_code:
+                gc0 = c0.ghost_code.get(ast.unparse(stmt))
+                if gc0:
+                    for line in gc0:
+                        gname, gexpr = [x.strip() for x in line.split('=', 1)]
+                        st.frame.loc[gname] = self.eval_spec_value(st, gexpr, st.frame, old=st.old)
+                        st.lver += 1
         saved = self.exc_sink
         self.exc_sink = mine = []
         try:
@@ -53,6 +63,20 @@ class Verifier(Calls):
         finally:
             self.exc_sink = saved
         outs = list(outs)
+        # ghost code attached to this statement by the contract (witness bookkeeping; never changes real state)
+        if outs and isinstance(stmt, (ast.Assign, ast.AugAssign, ast.Expr)):
+            c = REG.fns.get(st.frame.fnkey) if st.frames else None
+            if c is not None and c.ghost_code:
+                gc = c.ghost_code.get(ast.unparse(stmt))
+                if gc:
+                    for s, kind, v in outs:
+                        if kind != 'next':
+                            continue
+                        for line in gc:
+                            gname, gexpr = [x.strip() for x in line.split('=', 1)]
+                            gv = self.eval_spec_value(s, gexpr, s.frame, old=s.old)
+                            s.frame.loc[gname] = gv
+                            s.lver += 1
         for s, v in mine:
             outs.append((s, 'raise', v))
         return outs
@@ -358,7 +382,7 @@ class Verifier(Calls):
         self.collect_writes(stmt.body, st, {}, True, 0, writes)
         cfun = REG.fns.get(key)
         if cfun is not None and cfun.ghost:
-            # ghost state is updated by callback invocations, which are not visible syntactically
+            # ghost state is updated by callback invocations / ghost code, which are not visible syntactically
             writes['locals'].update(cfun.ghost)
         if pre_body:
             writes['locals'].add(pre_body[0])
